@@ -30,7 +30,7 @@ def doc_for(ty, v):
     if ty == 2:
         return {"id": v, "m": ({"k%d" % (v % 3): v} if v % 5 else None)}
     if ty == 3:
-        return {"id": v, "s": NAMEPOOL[v % 6]}
+        return {"id": v, "s": NAMEPOOL[v % 6], "p": "ps:%d" % (v % 7)}
     d = {"id": v, "name": NAMEPOOL[v % 6], "f": v * 0.25}
     if v % 3 == 0:
         d["tags"] = ["t", str(v)]
